@@ -521,6 +521,10 @@ func run(sc in, rng *vh.Rng, cert, keyf string) (o obs) {
 		req.TxHashes = nil
 	case "padded-amount":
 		req.Amount = "000" + amount
+	case "window-empty": // decay window of no length: accepted by the published rules, forwarded verbatim
+		req.DecayEndTimestamp = ds
+	case "window-reversed":
+		req.DecayStartTimestamp, req.DecayEndTimestamp = de, ds
 	}
 	reqs := []*bidderapiv1.Bid{req}
 	if sc.Sibling {
@@ -792,6 +796,8 @@ func main() {
 		{Tag: "nodewire", Scene: "bootnode", Staked: true},
 		{Tag: "nodewire", Staked: true, Allowed: true, BidShape: "bad-hash"},
 		{Tag: "nodewire", Staked: true, Allowed: true, BidShape: "padded-amount"},
+		{Tag: "nodewire", Staked: true, Allowed: true, BidShape: "window-empty"},
+		{Tag: "nodewire", Staked: true, Allowed: true, BidShape: "window-reversed"},
 		{Tag: "nodewire", Staked: true, Allowed: true, Ops: true, OpsFault: "revert"},
 		{Tag: "nodewire", Staked: true, Allowed: true, Ops: true, OpsFault: "reject"},
 	}
